@@ -1,0 +1,15 @@
+// Copyright The gittuf Authors
+// SPDX-License-Identifier: Apache-2.0
+
+//go:build verif
+
+package luasandbox
+
+import lua "github.com/yuin/gopher-lua"
+
+// VerifLState exposes the environment's interpreter state to the conformance
+// harness (build tag verif only), so that the values reachable from the
+// sandbox's globals can be walked from the Go side.
+func (l *LuaEnvironment) VerifLState() *lua.LState {
+	return l.lState
+}
